@@ -472,3 +472,35 @@ func (c *Ctx) decodeInterfaceUniverse(short string) map[*types.Named]map[*types.
 	}
 	return out
 }
+
+// withHelpers: fn, its closures and the functions of the same package they call statically, to the given depth.
+// Rules that look for a construct "in fn" use it so that extracting the construct into a helper changes nothing.
+func (c *Ctx) withHelpers(fn *ssa.Function, depth int) []*ssa.Function {
+	seen := map[*ssa.Function]bool{}
+	var out []*ssa.Function
+	var add func(f *ssa.Function, d int)
+	add = func(f *ssa.Function, d int) {
+		if f == nil || seen[f] || f.Blocks == nil {
+			return
+		}
+		seen[f] = true
+		out = append(out, f)
+		for _, an := range f.AnonFuncs {
+			add(an, d)
+		}
+		if d == 0 {
+			return
+		}
+		for _, b := range f.Blocks {
+			for _, in := range b.Instrs {
+				if ci, ok := in.(ssa.CallInstruction); ok {
+					if cal := ci.Common().StaticCallee(); cal != nil && cal.Pkg != nil && cal.Pkg == ir.Outer(fn).Pkg {
+						add(cal, d-1)
+					}
+				}
+			}
+		}
+	}
+	add(fn, depth)
+	return out
+}
